@@ -1,5 +1,7 @@
 """MANIFEST texts of the node-level properties (imported by gen_manifest.py)."""
 
+ALG_NOTE = ("Trusted: Lean kernel + the three standard axioms (Mathlib is re-checked by the kernel); verif hooks; the algdiff correspondence on real ceremonies. Modelled, not verified: kyber/blst, ECIES, i.e. that BLS12-381 is an instance of the abstract structure; the node/airgapped code around the algebra is exercised by the ceremonies.")
+
 NODE_NOTE = ("Trusted: Lean 4.33.0 kernel (axioms propext, Classical.choice, Quot.sound only; audited per theorem on every run); the translator "
              "(transition tables, callback map, node glue facts); the nodediff correspondence: a real BaseNodeService (LevelDB state, file board, real "
              "repositories and services) inside real ceremonies is fed every message through ProcessMessage and every answer through ProcessOperation / "
@@ -75,5 +77,15 @@ MORE['C07'] = dict(
           "Tie: fsmdiff (signing alphabet with stale batches, repeats), nodediff, and algdiff on real ceremonies: every node must hold a prysm-valid signature for every message of every batch that got t answers and be idle, "
           "under racing proposals and slow-signer schedules (exhaustive for n=3,t=2 with two batches in the thorough tier)."),
     ref='7 C07', note=NODE_NOTE)
+
+MORE['C11'] = dict(
+    technique='Lean 4 + Mathlib theorems about the deal check over an arbitrary group (accepted => consistent with the broadcast commitments; every coefficient and the length matter; constant-term comparison is insufficient, with witness) + FSM theorems (error report cancels, cancelled rounds never ask for the key step) + differential algdiff with a deviating dealer on real machines',
+    text=("Proof, partial. lean/Dc4bcVerif/Props/C11.lean: accepted_consistent (a deal that passes the addressee's check is consistent with the dealer's BROADCAST commitments; with C02.share_on_pubpoly a signing-ready "
+          "round has every share on the sum of the broadcast vectors), any_coefficient_matters, length_matters, constant_term_check_insufficient (explicit counterexample for a check that compares length and constant term only), "
+          "acceptDeal_iff / deviating_broadcast_refused / honest_deal_accepted (the executable check the driver runs over Z/r), error_report_cancels (C05), cancelled_never_asks_for_keys (no cancelled state creates an operation, over the "
+          "generated lists). Not proved: ECIES/JSON failure on undecryptable or malformed ciphertexts (library behaviour), that kyber's ProcessDeal implements the verification equation. Tie: algdiff plays a deviating dealer on real "
+          "nodes and machines for ten kinds of deviation and checks: an honest participant reports an error, every node ends cancelled, no honest machine stores a share; the Lean model predicts refuse for the deviations with known exponents. "
+          "KNOWN-FINDING C11-empty-deal-hangs: an EMPTY deal is refused by the addressee's node before the airgapped machine sees it and is never reported: the round hangs instead of being cancelled."),
+    ref='7 C11', note=ALG_NOTE if 'ALG_NOTE' in globals() else '')
 
 NOT_APPLICABLE = {}
